@@ -12,6 +12,7 @@ import (
 	"net/url"
 	"strings"
 	"time"
+	"verifmc/env"
 
 	"github.com/gobwas/ws"
 
@@ -29,12 +30,12 @@ type fakeConn struct {
 	buf bytes.Buffer
 }
 
-func (f *fakeConn) Write(p []byte) (int, error)        { return f.buf.Write(p) }
-func (f *fakeConn) Read(p []byte) (int, error)         { return 0, fmt.Errorf("peer: no answer") }
-func (f *fakeConn) Close() error                       { return nil }
-func (f *fakeConn) SetDeadline(time.Time) error        { return nil }
-func (f *fakeConn) SetReadDeadline(time.Time) error    { return nil }
-func (f *fakeConn) SetWriteDeadline(time.Time) error   { return nil }
+func (f *fakeConn) Write(p []byte) (int, error)      { return f.buf.Write(p) }
+func (f *fakeConn) Read(p []byte) (int, error)       { return 0, fmt.Errorf("peer: no answer") }
+func (f *fakeConn) Close() error                     { return nil }
+func (f *fakeConn) SetDeadline(time.Time) error      { return nil }
+func (f *fakeConn) SetReadDeadline(time.Time) error  { return nil }
+func (f *fakeConn) SetWriteDeadline(time.Time) error { return nil }
 
 func main() {
 	explore.Main("C10", func(r *explore.Run) {
@@ -208,6 +209,87 @@ func main() {
 				}
 			})
 			t.Note(fmt.Sprintf("response grammar of 12 fields, every response with <=%d non-canonical fields (%d) x %d dialer configurations (protocols x extensions x read buffer)", k, len(resps), len(dcs)))
+		})
+
+		// A transport error that calls itself temporary after every number of response bytes, the
+		// rest arriving afterwards: the dialer gives up with an error, or carries on to exactly
+		// the outcome of the undisturbed response - never a success the undisturbed response does
+		// not get, never other handshake data.
+		r.Part("E3-transient-read-error-at-every-offset", func(t *explore.T) {
+			head := "HTTP/1.1 101 Switching Protocols\r\nUpgrade: websocket\r\nConnection: Upgrade\r\n"
+			resps := map[string]string{
+				"valid":                           head + "Sec-WebSocket-Accept: ACCEPT\r\nSec-WebSocket-Protocol: b\r\n\r\nTAIL",
+				"accept only inside another":      head + "X-Note: Sec-WebSocket-Accept: ACCEPT\r\n\r\n",
+				"protocol not offered":            head + "Sec-WebSocket-Accept: ACCEPT\r\nSec-WebSocket-Protocol: zzz\r\n\r\n",
+				"offered protocol inside another": head + "Sec-WebSocket-Accept: ACCEPT\r\nX-Note: Sec-WebSocket-Protocol: b\r\nSec-WebSocket-Protocol: zzz\r\n\r\n",
+				"status 200":                      "HTTP/1.1 200 OK\r\nUpgrade: websocket\r\nConnection: Upgrade\r\nSec-WebSocket-Accept: ACCEPT\r\n\r\n",
+			}
+			u, _ := url.ParseRequestURI("ws://example.com/chat")
+			run := func(resp string, at int, timeout bool, bufSize int) (ok bool, proto, tail string) {
+				conn := &hs.LazyConn{}
+				conn.Respond = func(req []byte) []byte {
+					return []byte(strings.ReplaceAll(resp, "ACCEPT", hs.Accept(hs.KeyOf(req))))
+				}
+				if at >= 0 {
+					conn.HiccupAt, conn.HiccupErr = at, env.TempErr{IsTimeout: timeout}
+				}
+				d := ws.Dialer{ReadBufferSize: bufSize, Protocols: []string{"a", "b"}}
+				br, h, err := d.Upgrade(conn, u)
+				if br != nil {
+					// drain what follows the head (the application repeats a read that failed temporarily)
+					var b []byte
+					buf := make([]byte, 64)
+					for i := 0; i < 1000; i++ {
+						k, e := br.Read(buf)
+						b = append(b, buf[:k]...)
+						if _, temp := e.(env.TempErr); e != nil && !temp {
+							break
+						}
+					}
+					tail = string(b)
+					ws.PutReader(br)
+				}
+				if err == nil {
+					// what was not buffered is still on the connection
+					buf := make([]byte, 64)
+					for i := 0; i < 1000; i++ {
+						k, e := conn.Read(buf)
+						tail += string(buf[:k])
+						if _, temp := e.(env.TempErr); e != nil && !temp {
+							break
+						}
+					}
+				}
+				return err == nil, h.Protocol, tail
+			}
+			for name, resp := range resps {
+				n := len(strings.ReplaceAll(resp, "ACCEPT", hs.Accept(hs.CanonKey)))
+				for _, bufSize := range []int{0, 32} {
+					ok0, proto0, tail0 := run(resp, -1, false, bufSize)
+					for at := 0; at <= n; at++ {
+						for _, timeout := range []bool{false, true} {
+							name, resp, at, timeout, bufSize := name, resp, at, timeout, bufSize
+							t.Do(func() string {
+								return fmt.Sprintf("response %q, read buffer %d, temporary error (timeout=%v) after %d of %d bytes", name, bufSize, timeout, at, n)
+							}, func() *explore.Fail {
+								ok, proto, tail := run(resp, at, timeout, bufSize)
+								if ok && !ok0 {
+									return explore.Failf("refused-response-accepted-after-transient-error", "protocol %q", proto)
+								}
+								if ok && (proto != proto0 || tail != tail0) {
+									return explore.Failf("handshake-data-differs-after-transient-error", "protocol %q tail %q; undisturbed %q %q", proto, tail, proto0, tail0)
+								}
+								if ok {
+									t.Outcome("carried-on")
+								} else {
+									t.Outcome("gave-up")
+								}
+								return nil
+							})
+						}
+					}
+				}
+			}
 		})
 	})
 }
